@@ -233,6 +233,7 @@ pub fn gen_ws_conn(r: &mut Rng, nonce: &mut u64, port: u16, allow_faults: bool) 
         c.steps.push(Step::AwaitResponses { count: 2, max_ms: 30_000 });
         c.reqs.push(w.plan());
     }
+    fit_c2s(&mut c);
     c
 }
 
